@@ -73,93 +73,9 @@ def mutants(syn, b, rng, tier, others):
     return out
 
 
-def classify_crash(err, rc, meta, tree, mtext=""):
-    """finding id or None for a dying decoder: site (innermost library frames) + input shape"""
-    site = stack_site(err)
-    funcs = [f.split("@")[0] + "@" + f.split("@")[1].split(":")[0] for f in site]
-    syn, data = meta["syn"], meta["data"]
-    if (rc == 99 and syn == "ber" and funcs and
-            (funcs[0] == "CHOICE_decode_ber@constr_CHOICE.c" or (funcs[0] == "ber_fetch_tag@ber_tlv_tag.c" and funcs[1:2] == ["CHOICE_decode_ber@constr_CHOICE.c"]))
-            and (tree is None or has_tagged_choice(tree)) and eoc_zero_nonzero(data)):
-        return "C04-choice-ber-eoc-loop"
-    if ("heap-buffer-overflow" in (err or "") and "READ of size 1" in err and syn == "oer" and funcs[:1] == ["INTEGER_decode_oer@INTEGER_oer.c"]
-            and (tree is None or has_oer_positive_varlen_int(tree)) and oer_zero_length_tail(data)):
-        return "C04-oer-integer-empty-contents"
-    if (rc == 78 and funcs[:1] == ["UniversalString__dump@UniversalString.c"] and "UniversalString" in mtext
-            and re.search(r"runtime error: left shift of (1[2-9]\d|2\d\d) by 24 places cannot be represented in type 'int'", err or "")):
-        return "C04-universalstring-print-shift"
-    if ("pc points to the zero page" in (err or "") and re.search(r"#0 0x0\s", err) and syn in ("uper", "oer") and re.search(r"\bSET\s*\{", mtext)
-            and len(funcs) >= 1 and re.match(r"(\w+_decode_(uper|oer)@constr_|uper_decode@per_decoder|oer_decode@oer_decoder|uper_open_type_get_simple@per_opentype)", funcs[0])):
-        return "C04-set-no-per-oer-null-call"
-    if (funcs[:1] == ["SET_OF_encode_uper@constr_SET_OF.c"] and syn == "uper" and "asn_encode_to_new_buffer@asn_application.c" in funcs
-            and ("_el_buffer" in err or "SEGV" in err) and unencodable_value(meta.get("dec_rerun"), tree)):
-        return "C04-setof-encode-uper-null"
-    if "stack-overflow" in (err or "") or (rc in (-11, 139) and not site):
-        if syn == "xer" and any(re.match(r"(\w+_decode_xer|xer_decode\w*)@", f) for f in funcs[:6]):
-            return "C15-xer-no-stack-guard"
-        if syn == "oer" and funcs[:1] == ["CHOICE_decode_oer@constr_CHOICE_oer.c"]:
-            return "C15-oer-choice-no-stack-guard"
-    return None
-
-
-def unencodable_value(rerun, tree):
-    """the decoded value (as `dec` reports it) violates a constraint: asn_check_constraints says so, or its DER walked
-    along the model type holds a value outside a non-extensible PER-visible constraint (the generated checkers miss
-    some: C08 findings)"""
-    if not rerun:
-        return False
-    if rerun.get("ck") == -1:
-        return True
-    if tree is None:
-        return False
-    try:
-        return bool(BerAccepted(tree, bytes.fromhex(rerun["der"])).out_of_constraint())
-    except (ValueError, IndexError):
-        return False
-
-
-def eoc_zero_nonzero(data):
-    """an indefinite length octet followed, later, by a zero octet and a non-zero octet: `00 xx` where
-    end-of-contents octets are expected"""
-    i = data.find(b"\x80", 1)
-    return i >= 0 and any(data[j] == 0 and data[j + 1] != 0 for j in range(i + 1, len(data) - 1))
-
-
-def oer_zero_length_tail(data):
-    """the buffer ends with a length determinant denoting zero octets: 00, 80, 81 00, 82 00 00, ..."""
-    for k in range(0, 9):
-        tail = bytes([0x80 | k]) + b"\x00" * k
-        if data.endswith(tail):
-            return True
-    return data.endswith(b"\x00")
-
-
-def rerun_reencode_crashes(jobs, cres):
-    """a process that died inside the RE-ENCODING step of d4 (after a successful decode): run the same input through
-    `dec` (decode, DER only, print, validate, free) to learn whether the decoded value violates a constraint"""
-    todo = []
-    for j, ((m, lines, metas), (outs, errs)) in enumerate(zip(jobs, cres)):
-        for i, info in errs.items():
-            if info[0] == "CRASH" and "asn_encode_to_new_buffer" in (info[2] or "") and "cmd_d4" in info[2]:
-                todo.append((j, i))
-    if not todo:
-        return
-    res = run_many([(jobs[j][0]["exe"], ["dec" + jobs[j][1][i][2:]]) for (j, i) in todo], per_chunk=1)
-    for (j, i), (o, e) in zip(todo, res):
-        mm = re.match(r"^(OK|MORE|FAIL) (\d+) (\S+) ck=(-?\d+)$", o[0] or "")
-        if mm and not e:
-            jobs[j][2][i]["dec_rerun"] = {"rc": mm.group(1), "der": mm.group(3), "ck": int(mm.group(4))}
-
-
 def report_crash(run, m, line, meta, info, layer):
     what, rc, err = info
     site = stack_site(err)
-    tree = m["trees"].get(meta["tn"]) if m.get("trees") else None
-    fid = classify_crash(err, rc, meta, tree, m.get("text", ""))
-    if fid:
-        run.known_finding(fid, line)
-        run.count("known_" + fid)
-        return
     summ = re.findall(r"(SUMMARY: [^\n]*|runtime error: [^\n]*)", err or "")
     how = "did not terminate within its CPU budget (hang)" if rc == 99 else "died (rc=%s, %s): sanitizer report, abort or signal" % (rc, what)
     run.violation("crash:%s:%s" % (layer, (site[0] if site else what)),
@@ -310,7 +226,6 @@ def model_layer(run, rng, tier, model):
     tlog("model: %d mutant lines generated" % sum(len(j[1]) for j in jobs))
     cres = run_many([(m["exe"], lines) for m, lines, metas in jobs], timeout=(150 if tier == "quick" else 1500))
     tlog("model: C side done, %d process deaths" % sum(len(e) for o, e in cres))
-    rerun_reencode_crashes(jobs, cres)
     allres = []
     mlines, mwhere = [], []
     for (m, lines, metas), (outs, errs) in zip(jobs, cres):
@@ -439,6 +354,28 @@ def deep_inputs(syn, b, rng):
     return out
 
 
+# a SET (no PER/OER codec: NULL entries in asn_OP_SET) below the top level, in every position from which a constructed
+# PER/OER decoder calls a member's decoder: alternative, member, element, extension addition (open type)
+NESTED_SET_TEXT = """WS DEFINITIONS AUTOMATIC TAGS ::= BEGIN
+  CS ::= CHOICE { n NULL, s SET { a BOOLEAN } }
+  QS ::= SEQUENCE { b BOOLEAN, s SET { a BOOLEAN } OPTIONAL }
+  LS ::= SEQUENCE OF SET { a BOOLEAN }
+  TS ::= SET OF SET { a BOOLEAN }
+  ES ::= SEQUENCE { b BOOLEAN, ..., s SET { a BOOLEAN } }
+  XS ::= CHOICE { n NULL, ..., s SET { a BOOLEAN } }
+END
+"""
+
+
+def nested_set_inputs(rng):
+    """short UPER/OER inputs that steer each decoder of module WS into the SET component (and some that do not)"""
+    fixed = ["80", "6000", "c0", "e0", "0180", "01ff", "0101ff", "8180", "818001ff", "80ff", "ff", "c04080", "8101ff", "80028000", "800201ff", "80010780018000",
+             "c0000180", "80", "8080", "0201ff", "810180", "a00180"]
+    out = [bytes.fromhex(h) for h in fixed]
+    out += [bytes([b]) for b in range(0, 256, 8)] + [rng.bytes(rng.range(2, 6)) for _ in range(24)]
+    return out
+
+
 def wide_layer(run, rng, tier):
     """modules over the wide algebra (no model): survival and consistency of all decoders on mutated inputs"""
     nmod, nty, nval = (6, 4, 2) if tier == "quick" else (16, 5, 4)
@@ -454,6 +391,7 @@ def wide_layer(run, rng, tier):
             run.count("wide_module_regenerated")
             continue
         wmods.append(wm)
+    wmods.append({"name": "WS", "text": NESTED_SET_TEXT, "defs": [(n, None) for n in re.findall(r"^\s*(\w+) ::=", NESTED_SET_TEXT, flags=re.M)]})
     tlog("wide: generating and building %d modules" % nmod)
     build_modules(wmods, tag="wide", moddrv_extra=INC, extra_ldflags=WRAP)
     tlog("wide: built")
@@ -513,11 +451,20 @@ def wide_layer(run, rng, tier):
         if len(lines) > maxlines:
             keep = sorted(set(rng.below(len(lines)) for _ in range(maxlines)))
             lines, metas = [lines[i] for i in keep], [metas[i] for i in keep]
+        if m["name"] == "WS":
+            # no valid PER/OER encoding exists to mutate (the encoders refuse a nested SET): direct short inputs
+            for tn, _ in m["defs"]:
+                for syn in ("uper", "oer"):
+                    for data in nested_set_inputs(rng):
+                        if (tn, syn, data) not in seen:
+                            seen.add((tn, syn, data))
+                            lines.append("d4 %s %s %s" % (tn, syn, hexs(data)))
+                            metas.append({"tn": tn, "syn": syn, "kind": "random", "data": data, "orig": data})
+                            run.count("wide_nested_set_input")
         jobs.append((m, lines, metas))
     tlog("wide: %d mutant lines generated" % sum(len(j[1]) for j in jobs))
     cres = run_many([(m["exe"], lines) for m, lines, metas in jobs], per_chunk=40, timeout=(150 if tier == "quick" else 1500))
     tlog("wide: C side done, %d process deaths" % sum(len(e) for o, e in cres))
-    rerun_reencode_crashes(jobs, cres)
     for (m, lines, metas), (outs, errs) in zip(jobs, cres):
         for i, (l, o, me) in enumerate(zip(lines, outs, metas)):
             run.case(l)
@@ -540,9 +487,7 @@ def refine_disagreement(run, m, line, o, me, r, n, v, d):
     c = me["case"]
     tree = m["trees"][c["tn"]]
     fid = None
-    if syn == "uper" and (C02.ref_to_choice(m, c["tn"]) or C02.uses_choice_ref(m, dict(m["defs"])[c["tn"]])) and r["rc"] == "FAIL":
-        fid = "C01-choice-ref-no-per"
-    elif syn == "ber":
+    if syn == "ber":
         try:
             acc = BerAccepted(tree, me["data"])
             if r["rc"] == "FAIL" and acc.mixed_chains():
@@ -563,8 +508,7 @@ def refine_disagreement(run, m, line, o, me, r, n, v, d):
     run.violation("refinement:Rt.%s_dec" % syn, rep)
 
 
-FOREIGN_IDS = {"C01-choice-ref-no-per", "C01-uper-semiconstrained-lb", "C16-umax-negative", "C16-ulong-signed",
-               "C15-xer-no-stack-guard", "C15-oer-choice-no-stack-guard"}
+FOREIGN_IDS = {"C01-uper-semiconstrained-lb", "C16-umax-negative", "C16-ulong-signed"}
 
 
 def all_findings():
